@@ -509,6 +509,25 @@ def _oracle_solve_t(case, obs, bad, t=None, before=None):
         if any(d['status'][i] != b['status'][i] or d['iters'][i] != b['iters'][i] for i in range(n) if i != p):
             bad('other-periods', 'status/iterations of %r changed at a period other than t' % (name,))
 
+    # ---- the two guards (as for a single model): min_iter > max_iter -> ValueError; a period without room for the linker's
+    # lags / leads (the longest among ALL its submodels) -> IndexError; both before anything is looked at or changed
+    def untouched():
+        return (not log and obs['core'] == {k: b_core[k] for k in ('vals', 'status', 'iters')} and
+                all({k: subs_obs[sid][k] for k in ('vals', 'status', 'iters')} == {k: subs_before[sid][k] for k in ('vals', 'status', 'iters')}
+                    and not subs_obs[sid]['evlog'] for sid in known))
+    if o['min_iter'] > o['max_iter']:
+        if out[:3] != ['raise', 'ValueError', False] or not untouched():
+            bad('guard|min_iter>max_iter', 'solve_t(min_iter=%d > max_iter=%d) must raise ValueError and change nothing; got %s, untouched=%s'
+                % (o['min_iter'], o['max_iter'], out, untouched()))
+        return
+    L_lags = max([s.get('lags', 0) for s in case['subs']] + [0])
+    L_leads = max([s.get('leads', 0) for s in case['subs']] + [0])
+    if p < L_lags or p >= n - L_leads:
+        if out[:3] != ['raise', 'IndexError', False] or not untouched():
+            bad('guard|infeasible-period', 'period %d of %d leaves no room for the linker\'s lags / leads (%d / %d, the longest among its submodels): '
+                'solve_t must raise IndexError and change nothing; got %s, untouched=%s' % (p, n, L_lags, L_leads, out, untouched()))
+        return
+
     # ---- unknown id: KeyError; exactly the counters of the ids listed before it were zeroed; nothing else happened
     unknown = [j for j, sid in enumerate(ids) if sid not in known]
     if unknown:
@@ -740,26 +759,22 @@ def oracle(case, obs):
         # "solves it to the same statuses, iteration counts and values as solving that model directly": compared whenever the
         # call is meaningful for both (t inside the span, a valid errors= value, the model selected); offset is finding #8
         in_scope = in_span and o['offset'] == 0 and o['errors'] in ERRMODES and _ids(case) == [s['id']]
-        feasible = s.get('lags', 0) <= p < n - s.get('leads', 0)
         if in_scope:
             a = (obs['out'][:2], lk['status'], lk['iters'], lk['vals'])
             b = (d['out'][:2], d['status'], d['iters'], d['vals'])
-            full = o['min_iter'] <= o['max_iter'] and feasible and _all_finite_case(s)
+            rejected = o['min_iter'] > o['max_iter'] or not (s.get('lags', 0) <= p < n - s.get('leads', 0))
             if a != b:
                 what = 'linker %s / model %s' % ((obs['out'][:2], lk['status'][p], lk['iters'][p]), (d['out'][:2], d['status'][p], d['iters'][p]))
-                if o['min_iter'] > o['max_iter']:
-                    bad('twin|no-min_iter>max_iter-guard', 'solve_t(min_iter > max_iter): the bare model raises ValueError and changes nothing, the '
-                        'linker wrapping it iterates and stamps: ' + what)
-                elif not feasible:
-                    bad('twin|no-feasibility-guard', 'period %d leaves no room for the model\'s lags/leads (%d/%d): the bare model raises IndexError '
-                        'and changes nothing, the linker wrapping it evaluates it (wrapped reads) and stamps: %s' % (p, s.get('lags', 0), s.get('leads', 0), what))
-                elif not _all_finite_case(s):
+                if not rejected and not _all_finite_case(s):
                     bad('twin|no-error-policy', 'non-finite value / warning / exception inside _evaluate: the bare model applies errors=%r '
                         '(SolutionError, status E / S, replacement), the linker wrapping it has no error policy: %s' % (o['errors'], what))
                 else:
                     bad('twin|differs', 'a linker wrapping one model and adding no equations differs from the bare model: ' + what)
-            if full and (obs['core']['status'][p], obs['core']['iters'][p]) != (d['status'][p], d['iters'][p]) and not (obs['out'][0] == 'raise' and obs['out'][2]):
+            if _all_finite_case(s) and not rejected and (obs['core']['status'][p], obs['core']['iters'][p]) != (d['status'][p], d['iters'][p]) \
+                    and not (obs['out'][0] == 'raise' and obs['out'][2]):
                 bad('twin|linker-stamp', 'the linker\'s own status/iterations differ from the model\'s')
+            if rejected and (obs['core']['status'], obs['core']['iters']) != (case['core']['status'], case['core']['iters']):
+                bad('twin|linker-stamp', 'a call rejected by a guard stamped the linker')
         return fails
     raise AssertionError(kind)
 
@@ -952,7 +967,7 @@ def selection_cases(rng, max_subs):
             subs = []
             for i in ids:
                 passes = [[['set', 0, lib.fhex(float(min(k, settle + (i % 2))))]] for k in range(1, 6)]
-                subs.append(mk_sub(i, 2, n, [] if rng.random() < 0.2 else [0], lags=rng.randint(0, 2), leads=rng.randint(0, 2), passes={str(p): passes}))
+                subs.append(mk_sub(i, 2, n, [] if rng.random() < 0.2 else [0], lags=min(rng.randint(0, 2), p), leads=min(rng.randint(0, 2), n - 1 - p), passes={str(p): passes}))
                 if rng.random() < 0.3:
                     subs[-1]['status'][p] = rng.choice(['.', 'F', 'E', 'S'])
                     subs[-1]['iters'][p] = rng.randint(0, 9)
@@ -975,7 +990,7 @@ def random_case(rng, kind='solve_t'):
     palette = [0.0, tol, nextafter(tol, -1.0), nextafter(tol, 2.0), 1.0, 1.5, -tol, 2.5e-11, -1.0, 2.0 * tol]
     bad_vals = [float('nan'), float('inf'), float('-inf')]
     mx = rng.randint(0, 5) if rng.random() < 0.93 else rng.randint(-2, 0)
-    mn = rng.randint(0, mx + 2) if mx >= 0 else rng.randint(-1, 2)
+    mn = rng.randint(0, mx + (2 if rng.random() < 0.12 else 0)) if mx >= 0 else rng.choice([mx - 1, mx, mx, mx, 0, 1])   # min_iter > max_iter: rejected
     if kind in ('twin', 'solve') and rng.random() < 0.85:
         mn = rng.randint(0, max(mx, 0))
     opts = dict(min_iter=mn, max_iter=mx, tol=lib.fhex(tol), failures=rng.choice(['raise', 'ignore']),
@@ -989,6 +1004,7 @@ def random_case(rng, kind='solve_t'):
     faulty = rng.random() < (0.12 if kind != 'twin' else 0.2)
     nonfinite = rng.random() < 0.1
     positions = [p] if kind != 'solve' else list(range(n))
+    feasible_t = rng.random() < 0.85
     subs = []
     L = rng.randint(0, 5)
     for i in range(ns):
@@ -1029,9 +1045,9 @@ def random_case(rng, kind='solve_t'):
                 ps.append(acts)
             passes[str(pos)] = ps
         sub = mk_sub(i if rng.random() < 0.8 else i + 10, nv, n, check, endo, rng.randint(0, 2), rng.randint(0, 2), passes)
-        if kind == 'twin' and rng.random() < 0.8:
-            sub['lags'] = rng.randint(0, p)
-            sub['leads'] = rng.randint(0, n - 1 - p)
+        if kind != 'solve' and feasible_t:                 # mostly a period with room for every submodel's lags and leads
+            sub['lags'] = min(sub['lags'], p)
+            sub['leads'] = min(sub['leads'], n - 1 - p)
         if rng.random() < 0.15:
             sub['status'][p] = rng.choice(['.', 'F', 'E', 'S'])
             sub['iters'][p] = rng.randint(0, 9)
@@ -1312,6 +1328,15 @@ def fixed_cases():
     out.append(mk_case(core=core, subs=two(settle([1.0] * 4), settle([1.0] * 4)),
                        hooks={'1': {'after': [[['set', 0, 0, lib.fhex(float(k))]] for k in (1, 2, 3, 3)]}}, max_iter=5))
     out.append(mk_case(subs=two(settle([1.0] * 4), settle([1.0, 2.0, 3.0, 3.0])), max_iter=5))
+    # the two guards of solve_t: linker lags 2 (from submodel 0), leads 1 (from submodel 1) over 5 periods: positions 2 and 3 are
+    # feasible; every boundary from both ends, by positive and negative t; order of the checks: ValueError (min_iter > max_iter),
+    # then IndexError (feasibility), then KeyError (unknown id) — nothing changed by the first two
+    for t in (1, 2, 3, 4, 0, -4, -3, -2, -1, -5):
+        for sel in (None, [7], [1], [1, 7]):
+            for mn, mx in ((0, 3), (3, 2)):
+                g = [mk_sub(0, 1, 5, [0], lags=2, leads=0, passes={str(t % 5): settle([1.0, 1.0])}),
+                     mk_sub(1, 1, 5, [0], lags=0, leads=1, passes={str(t % 5): settle([2.0, 2.0])})]
+                out.append(mk_case(n=5, t=t, subs=g, sel=sel, min_iter=mn, max_iter=mx, failures='ignore'))
     # empty check lists (the BaseModel default): a selected submodel that contributes nothing to the convergence test is still
     # evaluated, counted and stamped; with every check list empty the period is solved at iteration max(1, min_iter)
     for mn, mx in ((0, 4), (2, 4), (3, 2), (0, 0)):
